@@ -4,6 +4,7 @@ from __future__ import annotations
 from .harness import Explorer
 from .rules import part, wrappers, pent, sysz, mcsops, cnf, enum, cinf, preocf
 from .rules import parser as parser_rules
+from .rules import diag
 
 
 def _class_of(table, key):
@@ -375,6 +376,9 @@ def C06(rep, prog, tier):
     wrappers.refuse(rep, ex)
     wrappers.refuse_manager(rep, ex)
     wrappers.shortcut_dominance(rep, ex)
+    diag.flags(rep, ex)
+    diag.facts_sat(rep, ex)
+    preocf.fact_builder_sibling(rep, ex)
 
 
 CHECKS = {"C01": C01, "C02": C02, "C03": C03, "C04": C04, "C05": C05, "C06": C06, "C07": C07, "C09": C09, "C10": C10, "C11": C11, "C12": C12, "C13": C13, "C14": C14, "C16": C16, "C17": C17, "C18": C18, "C20": C20, "C15": C15}
